@@ -1,7 +1,8 @@
 from contracts.weakrefs import InsertOnce, GetCleanRef, RemoveNoneReferents
 from contracts.identity import IdentifierHistories, WorkspaceRegister, CopyIdentifiersByKind
+from contracts.tree import SweepDeadEntries
 from contracts.copying import CopyPropertyGroups, GetAttributesStub, ClearArraysStub, CopyToParent
-CONTRACTS = [InsertOnce, GetCleanRef, RemoveNoneReferents, WorkspaceRegister, CopyPropertyGroups, GetAttributesStub, ClearArraysStub, CopyToParent, IdentifierHistories, CopyIdentifiersByKind]
+CONTRACTS = [SweepDeadEntries, InsertOnce, GetCleanRef, RemoveNoneReferents, WorkspaceRegister, CopyPropertyGroups, GetAttributesStub, ClearArraysStub, CopyToParent, IdentifierHistories, CopyIdentifiersByKind]
 
 MANIFEST = {
     "category": "proof",
